@@ -299,7 +299,7 @@ def shards(tier, seed):
     big = BIG_CALLS if tier == "thorough" else BIG_CALLS[:2]
     return [("sweep", op) for op in ALL_OPS] + [("mixed", k) for k in ("logix", "slc")] + [("bigcall", op, k) for k in big for op in ("read", "write")] \
         + [("bigcall", op, k) for k in (WRAP, WRAP - 1) for op in ("read-packets", "write-packets")] \
-        + [("between", k) for k in (WRAP - 1, WRAP)] \
+        + [("between", k) for k in (WRAP - 1, WRAP)] + [("rawcounts",)] \
         + [("fresh", pers, it) for pers in ("m800", "v32", "v20") for it in (False, True)] \
         + [("fresh", "v32", True, "debuglog"), ("sweep", "readfrag", "debuglog"), ("sweep", "writefrag", "debuglog"), ("sweep", "bitmerge", "debuglog")]
 
@@ -321,6 +321,28 @@ def run_shard(shard, tier, seed):
         recs = sweep(rep, op, phases, full)
         rep.extra["records"] = [(op, recs)]
         rep.sample({"operation": op, "phases_visited": len(recs), "counts_per_run": sorted({v[2] for v in recs.values()})[:5], "at_wrap": recs.get(WRAP)})
+    elif shard[0] == "rawcounts":
+        # packets the application numbers itself (the constructor takes an int as well as the connection's counter): the wire carries that number
+        from pycomm3.packets import SendUnitDataRequestPacket
+
+        t, w, d, r = make_world("cip")
+        call(d.generic_message, service=0x0E, class_code=0x99, instance=1)
+        conn = conn_of(t)
+        for counts in ((700, 701, 702), (1, 2, 3), (65534, 65535, 1), (0x100, 0x1FF, 0xFFFF), (5, 0x8000, 6), (40000, 3, 40001)):
+            n0, n_ev = len(conn.seqs), len(t.events)
+            outs = []
+            for cnt in counts:
+                pkt = SendUnitDataRequestPacket(cnt)
+                pkt.add(b"\x0e\x03\x20\x99\x24\x01\x30\x01")
+                outs.append(call(d.send, pkt)[0])
+            seqs = conn.seqs[n0:]
+            flagged = [e for e in t.events[n_ev:] if e[0].startswith("C17")]
+            ok = tuple(seqs) == counts and not flagged and all(o == "ok" for o in outs)
+            rep.case(("rawcounts", counts), outcome="ok" if ok else "bad", calls=3)
+            if not ok:
+                rep.violation("sequence/explicit-counts", f"three packets created with the explicit counts {counts!r}: the wire carried {seqs!r}, target flagged {flagged[:1]!r} ({outs!r})", {"op": "rawcounts", "phase": None})
+        call(d.close)
+        w.__exit__()
     elif shard[0] == "between":
         # k unconnected messages (which carry no sequence count) between two connected ones: they must not move the counter round to where it was
         k = shard[1]
@@ -460,6 +482,8 @@ def replay(r):
     if r["op"] == "mixed":
         rep2 = run_shard(("mixed", "logix"), "quick", 0)
         rep.merge(rep2)
+    elif r["op"] == "rawcounts":
+        rep.merge(run_shard(("rawcounts",), "quick", 0))
     elif r["op"] == "between":
         rep.merge(run_shard(("between", r["k"]), "quick", 0))
     elif r["op"] == "fresh":
